@@ -9,7 +9,7 @@ func init() {
 			"that the unlock end time is block time + duration; that matured-unlock is guarded by the unlocking flag and the end-time comparison against block time and pays the lock owner; that owner guards precede every mutation.",
 		NotCovered:  []string{"index = primary records for every query shape over histories", "sum-tree internals (C16)", "conservation of owner balance + locked as a number"},
 		Assumptions: []string{"bank keeper and KV store are the effect primitives", "an error exit of a message reverts its store branch (SDK)"},
-		MinObl:      45,
+		MinObl:      97,
 		Run:         runC06,
 	})
 }
